@@ -7,4 +7,4 @@ Require Import List NArith ZArith.
 Require Import LV.Files.TsTok LV.Files.TsParse LV.Mem.Alloc LV.Files.TsMem LV.Files.NpdScan LV.Files.NpdLoad LV.Files.TsMemNpd LV.Files.LoadFail.
 Extraction Language OCaml.
 Set Extraction KeepSingleton.
-Extraction "models_tsmem.ml" mem_load_ts mem_load_npd start live fresh fail_at ts_digest npd_digest.
+Extraction "models_tsmem.ml" mem_load_ts mem_load_npd start live fresh fail_at ts_digest npd_digest ts_accepted npd_accepted.
